@@ -70,6 +70,14 @@ Theorem C17_event_property_clash_refuted :
 Proof. exact event_property_clash_refuted. Qed.
 Print Assumptions C17_event_property_clash_refuted.
 
+(* an optional array (or map) compiles to a repeated field inside a oneof: the compiler links it,
+   protodesc.NewFiles - the first step of deriving the client API - rejects the package *)
+Theorem C17_optional_repeated_refuted :
+  exists cs, in_quantifier optional_array_sample = true /\ reserved_free optional_array_sample = true
+    /\ compile optional_array_sample = Ok cs /\ client_accepts cs = false.
+Proof. exact optional_repeated_refuted. Qed.
+Print Assumptions C17_optional_repeated_refuted.
+
 (* PARTIAL: what holds.  For EVERY declaration the model compiles (in the quantifier or not)
    the output satisfies the core specification; for declarations in the quantifier the path
    parameters of Get and Events are exactly the primary and shard keys in declaration order
